@@ -7,7 +7,7 @@ LEAN_MODULE = "HexProps.C07"
 SCOPE = []
 ORACLE_RULE = "C07: see hx/oracles/framework.py (c07_case): random indicator spec (26 kinds + Amorph wrappers) x stream style x timeframe/fill x schedule on the real code"
 ASSUMPTIONS = ["TZ=UTC for this check"]
-PARTIAL = "proved: one loop iteration (one reading) per appended or merged candle per node, none on a complete list; bounded footprint for ALL 27 classes - read-only classes: the reading at index i is a function of candles i-W..i only, W = window(parameters); every class incl. the nine whose step writes helper series (bounded_footprint_trees): on a finished list, dropping old candles that leave lookback(parameters) finished ones gives exactly the full result minus those candles (equation in PyM: same candles or same exception), the new candle is a function of the last lookback candles and the appended one, one append changes exactly one candle. Not theorems by nature: call / instruction counts (measured on the real code: recording list, sys.setprofile), wall-clock cost, the manager's own re-walk"
+PARTIAL = "proved: one loop iteration (one reading) per appended or merged candle per node, none on a complete list; bounded footprint for ALL 27 classes - read-only classes: the reading at index i is a function of candles i-W..i only, W = window(parameters); every class incl. the nine whose step writes helper series (bounded_footprint_trees): on a finished list, dropping old candles that leave lookback(parameters) finished ones gives exactly the full result minus those candles (equation in PyM: same candles or same exception), the new candle is a function of the last lookback candles and the appended one, one append changes exactly one candle; on a collapsing timeframe (with or without fill) the same in buckets: a raw candle recomputes exactly the bucket it merges into or opens. Not theorems by nature: call / instruction counts (measured on the real code: recording list, sys.setprofile), wall-clock cost, the manager's own re-walk"
 
 
 def oracle(ctx):
